@@ -8,6 +8,14 @@
 
   Full statement (goal): `∀ ops, (ops.foldl step init).inv` for the whole mutating API, and
   `isRemoved` monotone along every history.
+
+  Status: proved for every call except `replace` (proved unless the replaced node sits between
+  two text nodes in strict mode) and `clone_node` of an element (proved under the guard
+  `cloneTopOK`); `isRemoved` monotone for every call without exception.  All preservation
+  theorems hold for arbitrary numbers as handle arguments — no liveness hypothesis is needed,
+  because a call on a handle that is not live is refused by the argument checks or is the
+  identity; so "non-live arguments" are in scope, not excluded.  (What the Rust does with a
+  stale `NodeId` is below this model: handles here are creation-order numbers.)
 -/
 import XotModel.Lemmas.FinvClone
 
@@ -228,6 +236,11 @@ theorem C04_fresh_handle (f : Forest) (v : Value) (hi : f.Inv) :
     invariant, whatever its arguments and outcome. -/
 theorem C04_step (f : Forest) (o : Op) (h : f.Inv) (hc : o.core = true) : (f.step o).Inv :=
   Forest.step_inv h o hc
+
+/-- The handle part of one step: handles stay distinct and below `next`. -/
+theorem C04_handles_step (f : Forest) (o : Op) (h : f.Inv) (hc : o.core = true) :
+    (f.step o).allHandles.Nodup ∧ ∀ x ∈ (f.step o).allHandles, x < (f.step o).next :=
+  ⟨(Forest.step_inv h o hc).nodup, (Forest.step_inv h o hc).below⟩
 
 /-- Every forest reachable from the empty store by calls in `Op.core`, with arbitrary arguments
     (live, removed, or never created), satisfies the invariant. -/
